@@ -69,13 +69,13 @@ func (mgr *manager) ModifyGaugeAV(data info.ModifyAttribute) error {
 }
 
 func (mgr *manager) ModifyCurrentGaugeCost(data info.ModifyCurrentGaugeCost) {
-	data.Amount = float64(mgr.gaugeCost) + data.Amount
+	data.Amount = mgr.gaugeCost + data.Amount
 	mgr.SetCurrentGaugeCost(data)
 }
 
 func (mgr *manager) SetCurrentGaugeCost(data info.ModifyCurrentGaugeCost) {
 	prev := mgr.gaugeCost
-	mgr.gaugeCost = int64(data.Amount)
+	mgr.gaugeCost = data.Amount
 
 	if prev == mgr.gaugeCost {
 		return
